@@ -413,6 +413,9 @@ func describeInstr(ins ssa.Instruction) string {
 
 // addrExpr reconstructs a source-like access path for an SSA address/value (no line numbers).
 func addrExpr(v ssa.Value) string {
+	if v == nil {
+		return ""
+	}
 	for depth := 0; depth < 12; depth++ {
 		switch x := v.(type) {
 		case *ssa.FieldAddr:
